@@ -62,7 +62,7 @@ def observe(seed):
     md, ref, rng = gen_model(seed, opts)
     if md is None:
         return {'skip': 'rejected'}
-    adj, jv, kinds, eqs, eqkinds = [], [], [], [], []
+    adj, jv, kinds, eqs, eqkinds, raws = [], [], [], [], [], []
     # results of ScipyKrylov solves are accurate to the GMRES tolerance only: they are quantised at 1e-6 (DESIGN.md C01)
     kry = any((sv.get('ln') or {}).get('name') == 'krylov' for sv in md['solvers'].values())
     qs = (lambda v: q(v, 1e-6)) if kry else q
@@ -107,6 +107,7 @@ def observe(seed):
                            'seed': [q(w) for w in ws], 'res': [qs(x) for x in jtw]})
                 adj.append({'v': q(np.concatenate(vs)), 'w': q(np.concatenate(ws)),
                             'av': qs(np.concatenate(jfv)), 'atw': qs(np.concatenate(jtw))})
+                raws.append((np.concatenate(vs), np.concatenate(ws), np.concatenate(jfv), np.concatenate(jtw)))
                 kinds.append('jacvec')
         # ---- internal operators of every group ---------------------------------------------------------
         p3 = ob.build(so.without_vois(md), {'mode': 'rev'})
@@ -141,6 +142,7 @@ def observe(seed):
             ati = [np.ravel(g._dinputs[ob.in_path(md, i['id'])[len(pre):]]).copy() for i in ext_in]
             adj.append({'v': q(np.concatenate([o_seed] + [i_seeds[i['id']] for i in ext_in])), 'w': q(r_seed),
                         'av': q(av), 'atw': q(np.concatenate([ato] + ati))})
+            raws.append((np.concatenate([o_seed] + [i_seeds[i['id']] for i in ext_in]), r_seed, av, np.concatenate([ato] + ati)))
             kinds.append('apply_linear:' + gp)
             # the same product restricted to a scope of inputs: out-of-scope inputs are ignored (fwd) / left alone (rev),
             # i.e. A_s = A P_s; observed as  apply(scope, v) = apply(no scope, P_s v)  and  apply^T(scope, w) = P_s apply^T(w)
@@ -184,6 +186,7 @@ def observe(seed):
             g.run_solve_linear('rev')
             stu = g._dresiduals.asarray(copy=True)
             adj.append({'v': q(r2), 'w': q(u2), 'av': qs(sr), 'atw': qs(stu)})
+            raws.append((r2, u2, sr, stu))
             kinds.append('solve_linear:' + gp)
     except AnalysisError:
         return {'skip': 'noconv'}
@@ -192,11 +195,21 @@ def observe(seed):
         return {'exc': '%s: %s' % (type(e).__name__, e), 'tb': traceback.format_exc()[-1500:], 'md': md}
     keep = [k for k, a in enumerate(adj) if tame(a)]
     untamed = len(adj) - len(keep)
+    # records beyond TLC's 32-bit arithmetic are judged here in floating point (1e-6): the identity itself is the
+    # specification's AdjOK, only its evaluation moves
+    fbad = []
+    for k, a in enumerate(adj):
+        if k in keep:
+            continue
+        v_, w_, av_, atw_ = [np.asarray(x, dtype=float).ravel() for x in raws[k]]
+        lhs, rhs = float(np.dot(w_, av_)), float(np.dot(atw_, v_))
+        if not abs(lhs - rhs) <= 1e-6 * (1 + abs(lhs) + abs(rhs)):
+            fbad.append({'kind': kinds[k], 'lhs': lhs, 'rhs': rhs, 'rec': a})
     adj = [adj[k] for k in keep]
     kinds = [kinds[k] for k in keep]
     case = so.case_record(md, ref, [], [], adj, jv)
     case['eqs'] = eqs
-    return {'case': case, 'md': md, 'kinds': kinds, 'eqkinds': eqkinds, 'seed': seed, 'untamed': untamed}
+    return {'case': case, 'md': md, 'kinds': kinds, 'eqkinds': eqkinds, 'seed': seed, 'untamed': untamed, 'fbad': fbad}
 
 
 def _worker(seeds):
@@ -228,6 +241,11 @@ def run(ctx):
             if not ok:
                 ctx.violation({'seed': r['seed'], 'operator': r['kinds'][j], 'model': r['md']}, '<w, A v> = <A^T w, v>',
                               r['case']['adj'][j], 'adjoint identity fails for ' + r['kinds'][j].split(':')[0])
+        for fb in r.get('fbad', []):
+            nops += 1
+            ctx.violation({'seed': r['seed'], 'operator': fb['kind'], 'model': r['md']}, '<w, A v> = <A^T w, v>',
+                          {'<w,Av>': fb['lhs'], '<A^T w,v>': fb['rhs'], 'record': fb['rec']},
+                          'adjoint identity fails for ' + fb['kind'].split(':')[0] + ' (judged in floating point: beyond 32-bit rationals)')
         for j, ok in enumerate(vv['eqs']):
             nops += 1
             ctx.note_nontrivial('%d:%s' % (r['seed'], r['eqkinds'][j]))
@@ -242,7 +260,7 @@ def run(ctx):
     ctx.impl = nops
     ctx.evaluations = nops
     ctx.extra['models'] = len(cases)
-    ctx.extra['adjoint_records_beyond_32bit_arithmetic_not_judged'] = sum(r.get('untamed', 0) for r in cases)
+    ctx.extra['adjoint_records_beyond_32bit_arithmetic_judged_in_floats'] = sum(r.get('untamed', 0) for r in cases)
     for r in cases[:2]:
         ctx.sample({'seed': r['seed'], 'operators': r['kinds'], 'first': r['case']['adj'][0] if r['case']['adj'] else None})
     ctx.rule = ('generated models; integer seed vectors in -3..3; operators: compute_jacvec_product fwd/rev (exact J v and J^T w and '
